@@ -47,8 +47,36 @@ def units_for(prop, tier, gdir):
     caps = cfg['caps']
     units = []
     notes = dict(containers=[], functions=[])
+    if prop in LOCK_PROPS:
+        # lock discipline: the same contracts enforced on the lock-coverage instrumentation of the extracted
+        # code (an assertion "lock held" before every access to a data member).  No data, no capacity in these
+        # obligations: capacity <= 2 reaches every statement (quick), capacity <= 3 in thorough.
+        for cn, sp in specs.items():
+            notes['containers'].append(cn)
+            for fn in sp.order:
+                if fn.endswith('__ctor'):
+                    continue
+                notes['functions'].append(fn)
+                for case in case_list(sp.funcs[fn]):
+                    units.append(engine.Unit(cn, fn, 2 if tier == 'quick' else 3, sp, infos[cn], gen, timeout=3600, sym=True, case=case, lockcov=True))
+        return units, notes
+    if prop == 'C18':
+        import rel
+        for cn, sp in specs.items():
+            if cn not in rel.CONF:
+                continue
+            notes['containers'].append(cn)
+            for op in rel.ops_for(cn):
+                notes['functions'].append('%s__%s' % (cn, op[0]))
+                cases = [None]
+                if cn in ('ut_map', 'ut_set'):
+                    pf = rel.CONF[cn][0]
+                    cases = [(0, '%s_ttl(&s1) > 0' % pf), (1, '!(%s_ttl(&s1) > 0)' % pf)]
+                for case in cases:
+                    units.append(rel.RelUnit(cn, op, 2 if tier == 'quick' else 3, sp, infos[cn], gen, timeout=3000 if tier == 'quick' else 7200, case=case))
+        return units, notes
     for cn, sp in specs.items():
-        if prop not in sp.props and prop not in LOCK_PROPS:
+        if prop not in sp.props:
             continue
         fns = []
         for fn in sp.order:
@@ -62,7 +90,7 @@ def units_for(prop, tier, gdir):
         for fn in fns:
             notes['functions'].append(fn)
             for mc in ([int(sp.funcs[fn].opts['quickcap'])] if tier == 'quick' and 'quickcap' in sp.funcs[fn].opts else caps):
-                to = int(sp.funcs[fn].opts.get('timeout', '1500' if tier == 'quick' else '3600'))
+                to = int(sp.funcs[fn].opts.get('timeout', '1500' if tier == 'quick' else '7200'))
                 for case in case_list(sp.funcs[fn]):
                     units.append(engine.Unit(cn, fn, mc, sp, infos[cn], gen, timeout=to, sym=cfg['sym'], case=case))
             if tier == 'thorough' and sp.funcs[fn].opts.get('modular') == 'yes':
